@@ -336,6 +336,87 @@ def strbit_rule(chk, db):
             chk.analysis_broken("STRBIT: bitset no longer has a string_view constructor")
 
 
+def strlen_rule(chk, db):
+    """STRLEN: the string constructor uses M = min(n, str.size() - pos) characters ([bitset.cons]). The loop bound is normalised to
+    a linear form (substr(p, c) has size min(c, size - p)) and compared with that specification."""
+    from ..rules import slots as SL
+    from ..rules import sets as SP
+    n = 0
+    for f in db.funcs:
+        if f.get("record") not in ("etl::bitset", "etl::basic_bitset") or f["n"] != "<ctor>" or f.get("body") is None:
+            continue
+        sp = [p0["n"] for p0 in f["params"][:1] if p0["ty"].replace("const ", "").strip().startswith("basic_string_view")]
+        if not sp or len(f["params"]) < 3:
+            continue
+        strp, posp, np_ = sp[0], f["params"][1]["n"], f["params"][2]["n"]
+        env = SL.Env(f, False)
+        views = {strp: (SL.const(0), None)}      # view name -> (offset into str, size Lin or None = whole)
+
+        def size_of(name):
+            off, sz = views[name]
+            return SL.sym("size(%s)" % strp) - off if sz is None else sz
+
+        def lin2(e):
+            e0 = astx.strip_casts(e)
+            if e0 is not None and e0.get("k") == "call":
+                nm, q, recv, kind = astx.callee(e0)
+                r0 = astx.strip_casts(recv) if recv is not None else None
+                if kind == "member" and nm in ("size", "length") and r0 is not None and r0.get("k") == "ref" and r0["n"] in views:
+                    return size_of(r0["n"])
+                if nm in ("min",) and len(e0["a"]) == 2:
+                    a, b = lin2(e0["a"][0]), lin2(e0["a"][1])
+                    if a is not None and b is not None:
+                        return SL._mn(env, a, b)
+            if e0 is not None and e0.get("k") == "bin" and e0["op"] in ("+", "-"):
+                a, b = lin2(e0["l"]), lin2(e0["r"])
+                if a is None or b is None:
+                    return None
+                return a + b if e0["op"] == "+" else a - b
+            if e0 is not None and e0.get("k") == "ref" and e0.get("n") in env.locals:
+                return env.locals[e0["n"]]
+            return SL.lin(e, env)
+
+        bound = None
+        for st in astx.walk_stmts(f["body"]):
+            if st.get("k") == "decl":
+                for v in st["vars"]:
+                    if "other" in v or v.get("init") is None:
+                        continue
+                    i0 = astx.strip_casts(v["init"])
+                    if i0 is not None and i0.get("k") == "call" and astx.callee(i0)[0] == "substr":
+                        r0 = astx.strip_casts(astx.callee(i0)[2])
+                        if r0 is not None and r0.get("k") == "ref" and r0["n"] in views and i0["a"]:
+                            p_ = lin2(i0["a"][0])
+                            c_ = lin2(i0["a"][1]) if len(i0["a"]) > 1 else None
+                            if p_ is not None:
+                                base_sz = size_of(r0["n"])
+                                sz = base_sz - p_ if c_ is None else SL._mn(env, c_, base_sz - p_)
+                                views[v["n"]] = (views[r0["n"]][0] + p_, sz)
+                                continue
+                    t = lin2(v["init"])
+                    if t is not None:
+                        env.locals[v["n"]] = t
+            if st.get("k") == "for" and st.get("c") is not None and bound is None:
+                c = astx.strip_casts(st["c"])
+                if c.get("k") == "bin" and c["op"] in ("<", "!="):
+                    bound = lin2(c["r"])
+        n += 1
+        construct = astx.sig(f)
+        chk.instance("STRLEN")
+        want = SL._mn(env, SL.sym(np_), SL.sym("size(%s)" % strp) - SL.sym(posp))
+        if bound is None:
+            chk.obligation("STRLEN", construct, None)
+            chk.unknown_instance("STRLEN", construct, "the loop bound is not a linear form")
+            continue
+        ok = (bound == want)
+        chk.obligation("STRLEN", construct, ok)
+        if not ok:
+            chk.violation("STRLEN", construct, "characters-used", "%s: the constructor uses `%s` characters; [bitset.cons] specifies min(n, str.size() - pos) = `%s`" % (
+                astx.loc(f), bound, want), {"where": astx.loc(f)})
+    if n < 1:
+        chk.analysis_broken("STRLEN: bitset no longer has a (string_view, pos, n) constructor")
+
+
 def witness(chk):
     pro = "#include <etl/bitset.hpp>\n#include <etl/cstdint.hpp>\n#include <bitset>\n#include <type_traits>\n"
     tu = wit.TU("c17", pro)
@@ -386,6 +467,7 @@ def run(chk, tier):
     from ..rules import shift as _SH
     _SH.check(chk, db, ["_bit/", "_bitset/"], floor=20)      # SHIFT: shift counts stay below the promoted operand width
     strbit_rule(chk, db)
+    strlen_rule(chk, db)
     nrel = rel.check(chk, db, ["_bitset/bitset.hpp"])
     witness(chk)
     chk.assumptions += [
